@@ -30,6 +30,9 @@ Definition py_endswith (s p : list Z) : bool := py_prefixb (rev p) (rev s).
 Definition py_pop_ {A} (l : list A) : res (list A) :=
   match l with [] => Err EOther | _ :: _ => Ok (removelast l) end.
 
+(* an Optional[int] used where an int is needed (arithmetic, argument): TypeError when it is None *)
+Definition py_unwrap {A} (o : option A) : res A := match o with Some v => Ok v | None => Err EOther end.
+
 (* ---------------------------------------------------------------- lemmas *)
 Lemma py_str_eqb_eq a : forall b, py_str_eqb a b = true <-> a = b.
 Proof.
